@@ -31,16 +31,19 @@ impl Harness for Sup {
 			mon::Set::C04 => {
 				v.extend(scen::core_family(tier));
 				v.extend(scen::fault_family(tier));
+				v.extend(scen::respawn_fault_family(tier));
 			}
 			mon::Set::C06 => {
 				v.extend(scen::core_family(tier));
 				v.extend(scen::order_family(tier).into_iter().filter(|(s, _)| s.script.iter().any(|(o, _)| o.is_graceful())));
 				v.extend(scen::sigmap_family(tier));
+				v.extend(scen::respawn_fault_family(tier));
 			}
 			mon::Set::C07 => {
 				v.extend(scen::core_family(tier));
 				v.extend(scen::fault_family(tier));
 				v.extend(scen::waiter_family(tier));
+				v.extend(scen::respawn_fault_family(tier));
 			}
 			mon::Set::C09 => {
 				v.extend(scen::core_family(tier));
@@ -48,8 +51,12 @@ impl Harness for Sup {
 				v.extend(scen::fault_family(tier).into_iter().filter(|(s, _)| !matches!(s.op_fault, Some((scen::Fault::Wait, _)))));
 				v.extend(scen::order_family(tier).into_iter().filter(|(s, b)| s.script.len() <= 4 && b.len() > 1));
 				v.extend(scen::waiter_family(tier).into_iter().filter(|(s, _)| s.drop_handle));
+				v.extend(scen::respawn_fault_family(tier));
 			}
-			mon::Set::C10 => v.extend(scen::order_family(tier)),
+			mon::Set::C10 => {
+				v.extend(scen::order_family(tier));
+				v.extend(scen::respawn_fault_family(tier));
+			}
 		}
 		if let Ok(f) = std::env::var("VERIF_SCRIPT") {
 			// debugging aid: restrict to scenarios whose script renders as the given string
